@@ -119,15 +119,19 @@ def run_gen(ctx, name, system, match, kw):
 
     class UC(PyStub):
         def set_in_units(self, v, u):
-            return sp.Symbol('atol_default', positive=True)
+            return sp.Rational(1, 100)        # the default tolerance (0.01 angstrom in working units): far below the scripted distance 10 of the other atoms
     lookups = []
 
     def norm_(x, axis=None):
-        return ('DIST', x)
+        # scripted distances of the N atoms from the position: 0 for the atoms said to be within tolerance, 10 for the others (the tolerance is far below 10)
+        lookups.append((('DIST', x), None))
+        return np.array([sp.Integer(0) if i in match else sp.Integer(10) for i in range(N)], dtype=object)
 
     def isclose(d, z, atol=None, **k):
         lookups.append((d, atol))
-        return np.array([i in match for i in range(N)])
+        if np.ndim(d) == 0:
+            return bool(sp.sympify(d) == sp.sympify(z))
+        return np.array([bool(sp.sympify(v_) == sp.sympify(z)) for v_ in np.ravel(d)])
 
     def where(mask):
         return (np.array([i for i, b in enumerate(mask) if b], dtype=int),)
@@ -228,7 +232,7 @@ def generators(ctx):
                 oku = all(equal(system.atoms.view[k], before[k], deep=False) for k in before) and list(system.atoms.view) == list(before)
                 shared = [k for k in res.atoms.view for k2 in system.atoms.view if np.shares_memory(res.atoms.view[k], system.atoms.view[k2])]
                 okc2 = res.atoms is not system.atoms and not shared and isinstance(res.box, BoxM) and res.box is not system.box \
-                    and res.pbc is not system.pbc and [bool(x_) for x_ in res.pbc] == [bool(x_) for x_ in system.pbc]
+                    and res.pbc is not None and res.pbc is not system.pbc and [bool(x_) for x_ in res.pbc] == [bool(x_) for x_ in system.pbc]
                 ctx.ob('UNTOUCHED', loc, '%s: the input system is not written; box, pbc and atoms of the result are copies; symbols are kept' % tag, bool(oku and okc2 and res.symbols == system.symbols), node=fn, key=tag + ' untouched')
     ctx.floor('COUNT-ORDER', n, 28)
 
